@@ -751,7 +751,7 @@ func ruleXZWriterFormat(c *Ctx, r *Report, prefix string) {
 		padLen := c.Func("", "padLen")
 		fCWn := c.Field("", "countingWriter.n")
 		okBuf, okSum := false, false
-		var buf ssa.Value
+		var buf, trailerBuf ssa.Value
 		for _, b := range theCtx.GB(fn) {
 			for _, ins := range b.Instrs {
 				if ms, isM := ins.(*ssa.MakeSlice); isM {
@@ -762,6 +762,17 @@ func ruleXZWriterFormat(c *Ctx, r *Report, prefix string) {
 					})(ms.Len) {
 						okBuf = true
 						buf = ms
+					}
+				}
+				// the append idiom: w.Write(hash.Sum(make([]byte, k, k+s))) with k = padLen(cxz.n)
+				if call, isC := ins.(*ssa.Call); isC && call.Call.IsInvoke() && call.Call.Method.Name() == "Sum" {
+					if ms, isM := stripConv(call.Call.Args[0]).(*ssa.MakeSlice); isM && roleCallTo(padLen, roleFieldLoad(fCWn))(ms.Len) && call.Referrers() != nil {
+						for _, ref := range *call.Referrers() {
+							if wc, isW := ref.(*ssa.Call); isW && wc.Call.IsInvoke() && wc.Call.Method.Name() == "Write" && len(wc.Call.Args) == 1 && wc.Call.Args[0] == ssa.Value(call) {
+								okBuf, okSum = true, true
+								trailerBuf = call
+							}
+						}
 					}
 				}
 				if call, isC := ins.(*ssa.Call); isC && call.Call.IsInvoke() && call.Call.Method.Name() == "Sum" && buf != nil {
@@ -776,6 +787,38 @@ func ruleXZWriterFormat(c *Ctx, r *Report, prefix string) {
 		}
 		r.Check(okBuf && okSum, rule, "block-trailer:"+FnName(fn), c.Pos(fn.Pos()), "block trailer = padLen(compressed size) zero bytes followed by the check value",
 			"blockWriter.Close does not write padLen(compressed size) zero bytes followed by hash.Sum as the block trailer")
+		// ... and no successful path of Close leaves the trailer out (the padding is due also when the check is empty)
+		if okBuf && okSum {
+			spec := SeqSpec{Fn: fn, NoMerge: true}
+			spec.Event = func(w *Walker, p *PState, ins ssa.Instruction) string {
+				call, isC := ins.(*ssa.Call)
+				if !isC || !call.Call.IsInvoke() || call.Call.Method.Name() != "Write" || len(call.Call.Args) != 1 {
+					return ""
+				}
+				a := stripConv(call.Call.Args[0])
+				if a == trailerBuf || (buf != nil && a == buf) {
+					return "trailer"
+				}
+				return ""
+			}
+			paths, over := CollectPaths(c, spec)
+			bad := ""
+			nOK := 0
+			for _, sp := range paths {
+				if sp.Panic || sp.ErrNonNil || sp.ErrGlobal != nil {
+					continue
+				}
+				nOK++
+				if !sp.Has("trailer") {
+					bad = "blockWriter.Close returns without an error at " + c.InstrPos(sp.Exit) + " on a path that does not write the block trailer: the padding of the block (and its check) is missing from the stream"
+				}
+			}
+			if over {
+				r.Undecided(rule, "block-trailer-always:"+FnName(fn), c.Pos(fn.Pos()), "too many paths")
+			} else {
+				r.Check(bad == "" && nOK > 0, rule, "block-trailer-always:"+FnName(fn), c.Pos(fn.Pos()), "every successful path of Close writes the trailer", bad)
+			}
+		}
 	}
 	r.Floor(rule, 14)
 }
